@@ -116,7 +116,7 @@ func hasStd(d *dialect.Dialect, id uint32, std message.Message) bool {
 }
 
 func TestC16Automatic(t *testing.T) {
-	rec := evid.New(t, "C16", "generated node configurations (heartbeat on/off, period 20-80ms, system/autopilot type, dialect in {common, ardupilotmega, minimal, user dialects with version 0..255 with / without / with a fake HEARTBEAT or REQUEST_DATA_STREAM, none}, stream requests on/off, frequency 1..50, 1..3 channels, v1/v2 output) and histories of incoming heartbeats from generated (channel, system, component, autopilot) sources repeated several times and interleaved with other messages; oracles: heartbeats on every channel with the configured fields, status 4, dialect version, at most elapsed/period+1 of them and at least 2, none when disabled or the dialect lacks the standard message; for each distinct ArduPilot sender exactly the seven data-stream requests (1,2,3,6,10,11,12) at the configured rate addressed to it on its channel only plus one stream-requested event, nothing for other autopilots, other messages or when disabled; non-trivial = >=2 ArduPilot senders on >=2 channels plus a non-ArduPilot sender; distinct by hash of the scenario")
+	rec := evid.New(t, "C16", "generated node configurations (heartbeat on/off, period 20-80ms, system/autopilot type, dialect in {common, ardupilotmega, minimal, user dialects with version 0..255 with / without / with a fake HEARTBEAT or REQUEST_DATA_STREAM, none}, stream requests on/off, frequency 1..65535 (mostly 1..50), 1..3 channels, v1/v2 output) and histories of incoming heartbeats from generated (channel, system, component, autopilot) sources repeated several times and interleaved with other messages; oracles: heartbeats on every channel with the configured fields, status 4, dialect version, at most elapsed/period+1 of them and at least 2, none when disabled or the dialect lacks the standard message; for each distinct ArduPilot sender exactly the seven data-stream requests (1,2,3,6,10,11,12) at the configured rate addressed to it on its channel only plus one stream-requested event, nothing for other autopilots, other messages or when disabled; non-trivial = >=2 ArduPilot senders on >=2 channels plus a non-ArduPilot sender; distinct by hash of the scenario")
 	rec.Require("hb-enabled", "hb-disabled-or-missing", "sr-enabled-with-ardupilot", "sr-not-applicable", "multi-sender-multi-channel", "user-dialect", "v1-output", "several-channels-one-endpoint", "dialect-version-0", "ardupilot-sender-with-the-node's-own-ids", "more-than-1024-senders", "heartbeats-with-short-node-timeouts", "non-heartbeat-message-naming-ardupilot", "heartbeats-while-the-application-writes", "sibling-connection-of-the-same-endpoint-closed")
 	evid.Check(t, rec, evid.N(200, 600), func(t *rapid.T) {
 		drawNodeInit(t)
@@ -128,7 +128,7 @@ func TestC16Automatic(t *testing.T) {
 		w.sysType = rapid.IntRange(1, 255).Draw(t, "systype")
 		w.apType = rapid.IntRange(0, 255).Draw(t, "aptype")
 		w.srEnabled = rapid.IntRange(0, 3).Draw(t, "sr") > 0
-		w.freq = rapid.IntRange(1, 50).Draw(t, "freq")
+		w.freq = rapid.OneOf(rapid.IntRange(1, 50), rapid.IntRange(1, 50), rapid.SampledFrom([]int{200, 255, 256, 257, 300, 512, 1000, 4000, 65535}), rapid.IntRange(51, 65535)).Draw(t, "freq") // the field of the request is 16 bits wide
 		w.nch = rapid.SampledFrom([]int{1, 2, 2, 3, 3}).Draw(t, "nch")
 		w.outV2 = rapid.Bool().Draw(t, "outv2")
 		ns := rapid.OneOf(rapid.IntRange(0, 7), rapid.IntRange(4, 9)).Draw(t, "nsources")
@@ -473,7 +473,6 @@ func runC16(w *c16World) ([]string, error) {
 			}
 		}
 	}
-	elapsed := time.Since(t0)
 	// snapshot before closing
 	type snap struct {
 		hbs, reqs []ref.Frame
@@ -487,6 +486,9 @@ func runC16(w *c16World) ([]string, error) {
 		}
 		snaps[c] = snap{hbs, reqs, others}
 	}
+	// taken after the snapshots: everything in them was written before this instant, however long the
+	// harness took to collect them (an upper bound on the time gives a sound upper bound on the count)
+	elapsed := time.Since(t0)
 	peerRx := make([][]byte, len(peers))
 	for i, p := range peers {
 		peerRx[i] = p.Received()
